@@ -318,6 +318,30 @@ func materialiseExt(w *Wiring, l layout, f *fileSpec, alt bool) *hooks {
 		h.catExtra = fmt.Sprintf("/AcroForm << /Fields [%s] /DA (/Helv 9 Tf) >> ", ref(min(2, w.N)))
 		h.pageExtra = fmt.Sprintf("/Annots [%s] ", ref(1))
 
+	case "navnode":
+		// the page's /PresSteps is node 1; /Next is the list, /Prev and the
+		// actions are there to be ignored or decoded on the way
+		for i := 1; i <= w.N; i++ {
+			if k(i) != "node" {
+				if alt {
+					f.obj(i, "[1 2]", true)
+				} else {
+					f.obj(i, "17", true)
+				}
+				continue
+			}
+			next := ""
+			if av(i) != 0 {
+				next = "/Next " + l.tgt(av(i)) + " "
+			}
+			extra := "/Prev " + ref(i) + " "
+			if alt {
+				extra = fmt.Sprintf("/Prev %s /NA << /S /Named /N /NextPage >> /PA << /S /URI /URI (u%d) >> ", ref(1), i)
+			}
+			f.obj(i, fmt.Sprintf("<< /Type /NavNode %s%s/Dur %d >>", next, extra, i), true)
+		}
+		h.pageExtra = fmt.Sprintf("/PresSteps %s ", ref(1))
+
 	case "objwalk":
 		// the catalog's /ZZ entry leads to node 1; entries /A and /B
 		for i := 1; i <= w.N; i++ {
